@@ -102,6 +102,8 @@ func (e cliEv) String() string {
 		return "readerr(" + []string{"generic", "net.ErrClosed", "io.EOF", "ECONNREFUSED", "deadline exceeded"}[e.Arg] + ")"
 	case "setrto":
 		return fmt.Sprintf("setrto(%dms)", e.Arg)
+	case "clockback":
+		return "the clock is set back by an hour"
 	}
 	return e.K
 }
@@ -833,6 +835,10 @@ func (w *cliWorld) do(ev cliEv, quiesce bool) {
 	case "setrto":
 		w.rtoNow = time.Duration(ev.Arg) * time.Millisecond
 		c.SetRTO(w.rtoNow)
+	case "clockback":
+		// the caller's clock is a wall clock: it is stepped back (NTP correction, VM restore). Deadlines of
+		// transactions started from now on are taken from the new time
+		w.clock.now = w.clock.now.Add(-time.Hour)
 	case "overwrite":
 		// the caller reuses its message after Start: scribble, Reset and rebuild something else
 		if m := w.msgs[ev.I]; m != nil {
